@@ -12,6 +12,7 @@ def opOf (j : Json) : Except String Op := do
   | "add_successor" => pure (.addSucc (← intOf (← field j "a")) (← intOf (← field j "b")))
   | "add_predecessor" => pure (.addPred (← intOf (← field j "a")) (← intOf (← field j "b")))
   | "remove_node" => pure (.removeNode (← intOf (← field j "a")))
+  | "unlink" => pure (.unlink (← intOf (← field j "a")) (← intOf (← field j "b")))
   | "reindex" => do
     let m ← listOf (fun x => do
       match (← x.getArr?).toList with
